@@ -77,6 +77,21 @@ def run(tier, seed, replay):
             cases.append({"pre": [{"op": "new"}, load], "h": [{"op": "edge", "n": c["k"]}], "s": c["s"], "what": "state at the halting edge"})
             if c["k"] > 1:
                 cases.append({"pre": [{"op": "new"}, load], "h": [{"op": "edge", "n": c["k"] - 1}], "s": {"st": "Running"}, "what": "still Running one edge earlier"})
+    # unbounded: the supervision invariant is inductive on the core abstraction (any control store, any program) - Apalache
+    proof = os.path.join(vlib.SPEC, "proof", "SupCore.tla")
+    apout = os.path.join(vlib.WORK, "apalache")
+    obligations = [("Init => IndInv", ["--init=Init", "--inv=IndInv", "--length=0"]),
+                   ("IndInv /\\ Next => IndInv'", ["--init=IndInv", "--inv=IndInv", "--length=1"]),
+                   ("IndInv => SupInv", ["--init=IndInv", "--inv=SupInv", "--length=0"])]
+    discharged = 0
+    for name, args in obligations:
+        p = vlib.sh(["timeout", "900", "apalache-mc", "check", "--out-dir=" + apout] + args + [proof], check=False, cwd=vlib.WORK)
+        if "The outcome is: NoError" in p.stdout:
+            discharged += 1
+        elif "invariant" in p.stdout and "violated" in p.stdout:
+            v.violation("sup:proof", "the supervision invariant is not inductive on SupCore.tla: obligation `%s` fails" % name, {"apalache": p.stdout[-2000:]})
+        else:
+            raise vlib.ToolError("apalache failed on %s:\n%s" % (name, (p.stdout + p.stderr)[-2000:]))
     res = vlib.replay_cases(cases, "c05")
     seen = set()
     for f in res["first"]:
@@ -98,9 +113,10 @@ def run(tier, seed, replay):
     cov = {
         "states": states, "transitions": trans, "traces_validated_against_impl": res["cases"] + len(traces),
         "samples": [cases[0], {"trace": traces[0]}],
-        "halting_runs_replayed": res["cases"], "trace_events_validated": nev, "exhaustive": False,
+        "halting_runs_replayed": res["cases"], "obligations": len(obligations), "discharged": discharged,
+        "checker_cmd": "apalache-mc check --init=IndInv --inv=IndInv --length=1 spec/proof/SupCore.tla (and the two side obligations)", "trace_events_validated": nev, "exhaustive": False,
         "rule": "TLC: LDSP v for all 256 v x 5 stack sizes x 6 follow-ups (PUSH/POP, CALL/RET, POP on empty, PUSHF/POPF, unbounded recursion, RET on "
-                "empty) and JMP t for all 256 targets x 10 limits (+AUTO); SupInv, StepProps (stop iff STOP fetched, error stop iff a commit breaks a rule "
+                "empty) and JMP t for all 256 targets x 10 limits (+AUTO); SupInv, AbstractsToCore (every edge is an instance of the core abstraction on which Apalache proves the invariant inductive: unbounded in programs and control store), StepProps (stop iff STOP fetched, error stop iff a commit breaks a rule "
                 "or 0x00 fetched, at that very edge), Absorbing and post-halt closure at every state; every halting run replayed on the real machine "
                 "(Running one edge earlier, full state at the halting edge); per-edge traces incl. post-halt stimuli validated with SupInv",
     }
